@@ -323,32 +323,50 @@ func findIndVar(phi *ssa.Phi) *IndVar {
 // affinePhi recognises phi = [init, phi ± step] (without looking at the loop
 // condition). Down reports a decrementing counter (phi − step).
 func affinePhi(phi *ssa.Phi) *IndVar {
-	if len(phi.Edges) != 2 {
+	if len(phi.Edges) < 2 {
 		return nil
 	}
+	// one edge from outside the loop (the start value); every other edge — the latch, and
+	// one more per `continue` — carries the same phi ± step value
 	iv := &IndVar{Phi: phi}
-	for i, e := range phi.Edges {
+	for _, e := range phi.Edges {
 		bo, ok := e.(*ssa.BinOp)
 		if !ok {
 			continue
 		}
 		switch {
 		case bo.Op == token.ADD && (bo.X == ssa.Value(phi) || bo.Y == ssa.Value(phi)):
+			if iv.Next != nil && iv.Next != bo {
+				return nil
+			}
 			iv.Next = bo
 			if bo.X == ssa.Value(phi) {
 				iv.Step = bo.Y
 			} else {
 				iv.Step = bo.X
 			}
-			iv.Init = phi.Edges[1-i]
 		case bo.Op == token.SUB && bo.X == ssa.Value(phi):
+			if iv.Next != nil && iv.Next != bo {
+				return nil
+			}
 			iv.Next = bo
 			iv.Step = bo.Y
 			iv.Down = true
-			iv.Init = phi.Edges[1-i]
 		}
 	}
 	if iv.Next == nil {
+		return nil
+	}
+	for _, e := range phi.Edges {
+		if e == ssa.Value(iv.Next) {
+			continue
+		}
+		if iv.Init != nil {
+			return nil // two different start values
+		}
+		iv.Init = e
+	}
+	if iv.Init == nil {
 		return nil
 	}
 	return iv
